@@ -5,6 +5,7 @@ import RV.Driver.C12
 import RV.Driver.C13
 import RV.Driver.C19
 import RV.Driver.C20
+import RV.Driver.C07
 open RV.Driver
 
 def dispatch (prop op : String) (args : List String) (impl : String) : Verdict :=
@@ -21,6 +22,8 @@ def dispatch (prop op : String) (args : List String) (impl : String) : Verdict :
   | "C02" => c02 op args impl
   | "C19" => c19 op args impl
   | "C20" => c20 op args impl
+  | "C07" => c07 op args impl
+  | "C06" => c06 op args impl
   | _ => bad s!"prop:{prop}"
 
 /-- a line is `id \t prop \t op \t arg… \t => \t impl` -/
